@@ -20,7 +20,7 @@ Definition pl_close (colorder ordered : bool) (m o : table) : bool :=
 
 Definition cause_bit (c : cause) : N :=
   match c with
-  | CVocab => 256 | CReserved => 512 | CCmpNull => 1024 | CLogicNull => 2048
+  | CVocab => 256 | CColumnsExist => 512 | CCmpNull => 1024 | CLogicNull => 2048
   | CJoinKeyed => 16384 | CSortNulls => 65536 | CEmptyProject => 131072 | CSortTies => 262144 | CGroupKeyRepr => 524288
   end%N.
 
